@@ -2,7 +2,7 @@
    system is linear in the sources (uses the per-class theorem of Gen.C03);
    superposition, scaling, and "the responses with all but one source group
    killed sum to the full response". *)
-Require Import LT.FieldSec LT.Circuit LT.LinearSys Gen.StampsGen Gen.C01model Gen.C03.
+Require Import LT.FieldSec LT.Circuit LT.LinearSys Gen.StampsGen Gen.C01model Gen.C03defs Gen.C03.
 Local Open Scope Z_scope.
 Local Open Scope bool_scope.
 
@@ -11,19 +11,6 @@ Variable K : fld.
 Add Field KFn3 : (fth K).
 
 (* ---- (2) netlists -------------------------------------------------------- *)
-(* a source assignment gives every component position its (Isc, Voc) pair *)
-Definition srcs := nat -> K * K.
-Definition s_add (s1 s2 : srcs) : srcs := fun i => (fadd (fst (s1 i)) (fst (s2 i)), fadd (snd (s1 i)) (snd (s2 i))).
-Definition s_scale (k : K) (s : srcs) : srcs := fun i => (fmul k (fst (s i)), fmul k (snd (s i))).
-Definition s_zero : srcs := fun _ => (f0, f0).
-(* keep only the sources of the positions selected by [keep] (the others are "killed") *)
-Definition s_mask (keep : nat -> bool) (s : srcs) : srcs := fun i => if keep i then s i else (f0, f0).
-Fixpoint set_src (N : netlist K) (i : nat) (s : srcs) : netlist K :=
-  match N with
-  | [] => []
-  | (cl, c) :: N' => (cl, with_src c (fst (s i)) (snd (s i))) :: set_src N' (S i) s
-  end.
-
 Theorem asm_src_add (N : netlist K) (i : nat) (s1 s2 : srcs) :
   sres3 (@add_rel K) (assemble (set_src N i s1)) (assemble (set_src N i s2)) (assemble (set_src N i (s_add s1 s2))).
 Proof.
@@ -102,8 +89,6 @@ Qed.
 (* every component position is assigned to one of the groups 0 .. m-1 (a group:
    one independent source, or the set of initial conditions, or any coarser
    grouping); group j alone = all other positions' sources set to zero *)
-Definition group_src (g : nat -> nat) (s : srcs) (j : nat) : srcs := s_mask (fun i => Nat.eqb (g i) j) s.
-
 Lemma group_src_at (g : nat -> nat) (s : srcs) (j i : nat) :
   group_src g s j i = if Nat.eqb (g i) j then s i else (f0, f0).
 Proof. reflexivity. Qed.
@@ -186,9 +171,6 @@ Proof.
 Qed.
 
 End C03net.
-Arguments srcs K : clear implicits.
-Arguments s_add {K}. Arguments s_scale {K}. Arguments s_zero {K}. Arguments s_mask {K}.
-Arguments set_src {K}. Arguments group_src {K}.
 
 Print Assumptions asm_src_add.
 Print Assumptions asm_src_scale.
